@@ -508,6 +508,16 @@ func (e *CEnv) lookupType(ex ast.Expr) types.Type {
 	return nil
 }
 
+func (e *CEnv) lookupTypeExpr(ex ast.Expr) types.Type {
+	if st, ok := ex.(*ast.StarExpr); ok {
+		if t := e.lookupType(st.X); t != nil {
+			return types.NewPointer(t)
+		}
+		return nil
+	}
+	return e.lookupType(ex)
+}
+
 func (e *CEnv) findPkg(name string) *types.Package {
 	// imports of the contract's package first, then any loaded package of ours with that name
 	if pp := e.x.w.ppkgs[e.pkg]; pp != nil {
@@ -706,6 +716,14 @@ func (e *CEnv) eval(ex ast.Expr) TV {
 		return TV{v, ft}
 	case *ast.StarExpr:
 		return e.deref(e.eval(n.X))
+	case *ast.TypeAssertExpr:
+		a := e.eval(n.X)
+		t := e.lookupTypeExpr(n.Type)
+		iv, ok := a.V.(IfaceV)
+		if !ok || iv.Dyn == nil || t == nil || !types.Identical(iv.Dyn, t) {
+			fail("contract: type assertion to %v on a value of a different dynamic type", n.Type)
+		}
+		return TV{iv.V, t}
 	case *ast.IndexExpr:
 		base := e.eval(n.X)
 		idx := e.eval(n.Index)
@@ -931,7 +949,26 @@ func (e *CEnv) call(n *ast.CallExpr) TV {
 			}
 			return TV{x.mergeV(c, a.V, b.V), t}
 		case "imp":
-			return TV{Scalar{Implies(e.eval(n.Args[0]).V.(Scalar).T, e.eval(n.Args[1]).V.(Scalar).T)}, types.Typ[types.Bool]}
+			a := e.eval(n.Args[0]).V.(Scalar).T
+			if a.IsFalse() {
+				return TV{Scalar{True()}, types.Typ[types.Bool]}
+			}
+			// a consequent that cannot be evaluated in this case (e.g. it inspects a result of another shape)
+			// is an unknown proposition: the implication is then provable only if the antecedent is refutable
+			var b *Term
+			func() {
+				defer func() {
+					if r := recover(); r != nil {
+						if _, ok := r.(engineErr); ok {
+							b = x.freshVar("unevaluable", BoolS)
+							return
+						}
+						panic(r)
+					}
+				}()
+				b = e.eval(n.Args[1]).V.(Scalar).T
+			}()
+			return TV{Scalar{Implies(a, b)}, types.Typ[types.Bool]}
 		case "all", "any":
 			name := n.Args[0].(*ast.Ident).Name
 			t := e.lookupType(n.Args[1])
@@ -985,6 +1022,52 @@ func (e *CEnv) call(n *ast.CallExpr) TV {
 			mt := m.T.Underlying().(*types.Map)
 			k := x.leafTerm(e.coerceKey(e.eval(n.Args[1]), mt.Key()).V)
 			return TV{Scalar{Select(x.heapGet(e.state(), mv.Obj).(MapT).Has, k)}, types.Typ[types.Bool]}
+		case "readerslice":
+			// the slice a bytes.Reader (trusted model) was created over
+			a := e.eval(n.Args[0])
+			var p Ptr
+			switch v := a.V.(type) {
+			case IfaceV:
+				pp, ok := v.V.(Ptr)
+				if !ok {
+					fail("contract: readerslice of a non-reader")
+				}
+				p = pp
+			case Ptr:
+				p = v
+			default:
+				fail("contract: readerslice of %T", a.V)
+			}
+			if p.Obj == nil || p.Obj.Name != "bytes.Reader" {
+				fail("contract: readerslice: not a bytes.Reader (object %v)", p.Obj)
+			}
+			sv := x.load(e.state(), p).(StructV).F[0]
+			return TV{sv, types.NewSlice(types.Typ[types.Uint8])}
+		case "isreader":
+			a := e.eval(n.Args[0])
+			ok := false
+			if iv, isI := a.V.(IfaceV); isI {
+				if p, isP := iv.V.(Ptr); isP && p.Obj != nil && p.Obj.Name == "bytes.Reader" {
+					ok = true
+				}
+			}
+			return TV{Scalar{BoolC(ok)}, types.Typ[types.Bool]}
+		case "aliases":
+			a := e.deref(e.eval(n.Args[0]))
+			b := e.deref(e.eval(n.Args[1]))
+			sa, ok1 := a.V.(SliceV)
+			sb, ok2 := b.V.(SliceV)
+			if !ok1 || !ok2 {
+				fail("contract: aliases() needs two slices")
+			}
+			return TV{Scalar{BoolC(sa.Obj == sb.Obj && samePath(sa.Base, sb.Base))}, types.Typ[types.Bool]}
+		case "lo":
+			a := e.deref(e.eval(n.Args[0]))
+			sa, ok := a.V.(SliceV)
+			if !ok {
+				fail("contract: lo() needs a slice")
+			}
+			return TV{Scalar{sa.Off}, types.Typ[types.Int]}
 		case "isdyn":
 			// isdyn(x, "pkg.Type"): the dynamic type of interface value x is that type
 			a := e.eval(n.Args[0])
